@@ -13,7 +13,23 @@ THEOREMS = ["C19.other_subgraphs_untouched", "C19.performer_local", "C19.hcodes_
 def gen(rng, i):
     if i % 4 == 1:
         # one weight tied across two signatures whose readers sit at different operator positions x per-name / shipped / per-op recipes
-        return fp.gen_tied_case(rng, i, nsg=2)
+        case = fp.gen_tied_case(rng, i, nsg=2)
+        r = rng.random()
+        if r < 0.8 and "tied_scalars_only" not in case.info["tags"]:
+            cfgs = [pl.UNIFORM[k] for k in ("wo8", "wo8a", "wo4", "drq8", "drq4", "a8w8")] + [pl.FP16]
+            cfg = rng.choice(cfgs)
+            alg = "float_casting" if cfg is pl.FP16 else "min_max_uniform_quantize"
+            op = "FULLY_CONNECTED" if cfg is pl.FP16 else rng.choice(["FULLY_CONNECTED", "*"])
+            if r < 0.4:
+                # every reader of the tied weight gets the SAME request: the whole model is accepted, each signature must look as it does alone
+                regex = ".*"
+            else:
+                # only ONE signature is quantized (tensor names carry the subgraph prefix): the tied weight is requested by that signature only
+                regex = "^" + rng.choice(["s1/", "s1/", "s0/"])
+            case.cmds, case.recipe = [{"k": "add", "regex": regex, "operation": op, "cfg": cfg, "alg": alg}], None
+            case.desc = [(regex, op, alg, cfg["weight"]["bits"], cfg["cp"])]
+            case.info["tags"].add("tied_uniform_request" if regex == ".*" else "tied_one_signature_requested")
+        return case
     mb, info = gm.gen_model(rng, n_subgraphs=rng.choice([2, 2, 3]), share=0.25 if i % 3 == 0 else 0.0)
     data = gm.random_inputs(mb, rng, n=1)
     if i % 3 == 0:
